@@ -88,6 +88,10 @@ func staticallyUnreflectable(md protoreflect.MessageDescriptor, seen map[protore
 		switch fd.Kind() {
 		case protoreflect.Fixed32Kind, protoreflect.Fixed64Kind, protoreflect.Sfixed32Kind, protoreflect.Sfixed64Kind, protoreflect.GroupKind:
 			return true
+		case protoreflect.EnumKind:
+			if vals := fd.Enum().Values(); vals.Len() == 0 || !strings.HasSuffix(string(vals.Get(0).Name()), "UNSPECIFIED") {
+				return true
+			}
 		case protoreflect.MessageKind:
 			if fd.IsMap() {
 				if mv := fd.MapValue(); mv.Kind() == protoreflect.MessageKind && staticallyUnreflectable(mv.Message(), seen) {
@@ -132,6 +136,7 @@ func callWithTimeout(f func()) bool {
 
 func buildCatalogue() {
 	registerDynamicTypes()
+	registerSourceTypes()
 	var names []string
 	protoregistry.GlobalTypes.RangeMessages(func(mt protoreflect.MessageType) bool {
 		n := string(mt.Descriptor().FullName())
@@ -182,7 +187,7 @@ func buildCatalogue() {
 	// the repository's own test protos exist to cover every J5 feature (flattening, exposed and
 	// wrapped oneofs, anys, keys, wrappers ...): they get extra weight in the type pools
 	for _, ti := range goodTypes {
-		if strings.HasPrefix(ti.Pkg, "test.schema.") || strings.HasPrefix(ti.Pkg, "test.foo.") {
+		if strings.HasPrefix(ti.Pkg, "test.schema.") || strings.HasPrefix(ti.Pkg, "test.foo.") || strings.HasPrefix(ti.Pkg, "test.zzcyc.") {
 			featureTypes = append(featureTypes, ti)
 		}
 	}
@@ -1049,6 +1054,9 @@ func genWorkload(seed uint64, deep bool) *Workload {
 		}
 	case shape < 0.65: // one package: shared sub-schemas, mutual references
 		pk := byPkg[pkgNames[rng.Intn(len(pkgNames))]]
+		if cyc := byPkg["test.zzcyc.v1"]; len(cyc) > 0 && rng.Bool(0.12) {
+			pk = cyc // reference cycles with flattened edges: first-use order must not matter
+		}
 		n := 2 + rng.Intn(3)
 		for i := 0; i < n; i++ {
 			pool = append(pool, pk[rng.Intn(len(pk))])
@@ -1074,6 +1082,20 @@ func genWorkload(seed uint64, deep bool) *Workload {
 			for _, n := range []string{"test.zzbad.v1.Good", "test.zzbad.v1.Mid", "test.zzbad.v1.Leaf"} {
 				if ti := catByName[n]; ti != nil && rng.Bool(0.6) {
 					pool = append(pool, ti)
+				}
+			}
+			// the healthy messages the failing types refer to directly, as roots of their own
+			for _, bt := range pool {
+				if bt.Reflectable {
+					continue
+				}
+				fields := bt.Desc.Fields()
+				for i := 0; i < fields.Len(); i++ {
+					if fd := fields.Get(i); fd.Kind() == protoreflect.MessageKind && !fd.IsMap() {
+						if ti := catByName[string(fd.Message().FullName())]; ti != nil && ti.Reflectable && rng.Bool(0.4) {
+							pool = append(pool, ti)
+						}
+					}
 				}
 			}
 		}
